@@ -123,6 +123,8 @@ const (
 	zzKElse
 	zzKTplIf
 	zzKTplElse
+	zzKForEmpty // v-for over an empty list
+	zzKForTwo   // v-for over two items
 	zzKNumKinds
 )
 
@@ -134,7 +136,7 @@ func VerifC03_Chain() {
 	kinds := make([]int, K)
 	conds := make([]bool, K)
 	var src strings.Builder
-	data := map[string]any{"items": []int{1, 2}}
+	data := map[string]any{"items": []int{1, 2}, "none": []int{}, "two": []int{1, 2}}
 	for i := 0; i < K; i++ {
 		kinds[i] = zzChoice("kind", zzKNumKinds)
 		m := "M" + string(rune('0'+i))
@@ -162,6 +164,10 @@ func VerifC03_Chain() {
 			src.WriteString(`<template v-if="` + c + `"><i>` + m + `</i></template>`)
 		case zzKTplElse:
 			src.WriteString(`<template v-else><i>` + m + `</i></template>`)
+		case zzKForEmpty:
+			src.WriteString(`<s v-for="e in none">` + m + `</s>`)
+		case zzKForTwo:
+			src.WriteString(`<s v-for="e in two">` + m + `</s>`)
 		}
 	}
 	placement := zzChoice("placement", 3)
@@ -182,6 +188,22 @@ func VerifC03_Chain() {
 		case zzKPlain:
 			want = append(want, "M"+string(rune('0'+i)))
 			i++
+		case zzKForTwo:
+			want = append(want, "M"+string(rune('0'+i)), "M"+string(rune('0'+i)))
+			i++
+		case zzKForEmpty:
+			// an empty loop renders an immediately following v-else element
+			// (white space and comments may come between) and consumes it
+			j := i + 1
+			for j < K && (kinds[j] == zzKWs || kinds[j] == zzKComment) {
+				j++
+			}
+			if j < K && (kinds[j] == zzKElse || kinds[j] == zzKTplElse) {
+				want = append(want, "M"+string(rune('0'+j)))
+				i = j + 1
+			} else {
+				i++
+			}
 		case zzKIf, zzKTplIf:
 			chosen := -1
 			if conds[i] {
